@@ -7,6 +7,7 @@ import (
 	"go/token"
 	"go/types"
 	"sort"
+	"strings"
 
 	"golang.org/x/tools/go/ssa"
 )
@@ -386,6 +387,192 @@ func ruleBTNilTyp(c *Ctx) {
 			c.Bad(key, pos, fmt.Sprintf("for schema %s and no Go type no codec comes out: a file with such a field cannot be read into a struct that lacks it", k.st))
 		default:
 			c.OK(key, pos, fmt.Sprintf("folded for schema %s and the nil type: %d outcomes, none panics, a codec comes out", k.st, len(outs)))
+		}
+	}
+}
+
+// ---------- VAR-RD
+
+// ruleVarRd: varints are decoded by the read buffer's own decoder and nowhere else. Outside the read buffer's
+// methods a byte obtained from ReadByte is a whole value (a boolean, a one-byte union selector): it is never
+// widened and shifted left, which is how a multi-byte length is put together by hand. A hand-made decoder has to
+// get right what the buffer's decoder gets right (the continuation bit, ten bytes, the overflow rule) — and a
+// codec with its own is a second place where "what length did the writer mean" can come out differently.
+func ruleVarRd(c *Ctx) {
+	c.Rule("VAR-RD", "outside the read buffer a byte read from the input is never shifted into a wider number: lengths, counts and integers are decoded by the buffer's Varint alone", 2)
+	P := c.P
+	rbT := P.NamedType(P.Avro, "ReadBuf")
+	if !c.Anchor(rbT != nil, "avro.ReadBuf") {
+		return
+	}
+	isRB := func(fn *ssa.Function) bool {
+		if fn.Signature.Recv() == nil {
+			return false
+		}
+		return types.Identical(types.Unalias(derefType(fn.Signature.Recv().Type())), types.Unalias(rbT))
+	}
+	n := 0
+	for _, fn := range P.ModuleFuncs() {
+		if isRB(fn) {
+			continue
+		}
+		for _, cs := range callsIn(fn) {
+			if cs.Static == nil || qualNameShort(cs.Static) != "(*ReadBuf).ReadByte" || cs.Value() == nil {
+				continue
+			}
+			n++
+			key := fmt.Sprintf("%s/byte#%d", fnKey(fn), n)
+			b := extractOf(cs.Value(), 0)
+			bad := ""
+			if b != nil {
+				seen := map[ssa.Value]bool{}
+				var walk func(v ssa.Value, d int)
+				walk = func(v ssa.Value, d int) {
+					if seen[v] || d > 6 || bad != "" {
+						return
+					}
+					seen[v] = true
+					for _, r := range referrersOf(v) {
+						switch x := r.(type) {
+						case *ssa.Convert:
+							walk(x, d+1)
+						case *ssa.ChangeType:
+							walk(x, d+1)
+						case *ssa.Phi:
+							walk(x, d+1)
+						case *ssa.BinOp:
+							if x.Op == token.SHL && x.X == v {
+								bad = P.pos(x.Pos())
+								return
+							}
+							if x.Op == token.AND || x.Op == token.AND_NOT {
+								walk(x, d+1)
+							}
+						}
+					}
+				}
+				walk(b, 0)
+			}
+			if bad != "" {
+				c.Bad(key, P.pos(cs.Instr.Pos()), "a byte read here is shifted left into a wider number at "+bad+": a multi-byte integer is being decoded by hand, outside the read buffer's Varint")
+			} else {
+				c.OK(key, P.pos(cs.Instr.Pos()), "the byte is used as a whole value (compared, halved, masked, stored), never shifted into a wider number")
+			}
+		}
+	}
+}
+
+// ---------- JS-STRICT
+
+// ruleJSStrict: schema documents are parsed and written with the JSON library's default strictness. Every call
+// of the library's Unmarshal*/Marshal* functions in the module passes no options at all: the defaults refuse a
+// repeated member name and invalid UTF-8, and an option that relaxes either travels with the decoder into every
+// nested value, so a malformed document would parse — the last of two "type" members winning, two different
+// bad names becoming the same replacement character.
+func ruleJSStrict(c *Ctx) {
+	c.Rule("JS-STRICT", "the JSON library is called with no options: repeated member names and invalid UTF-8 in a schema document are refused, as by default", 4)
+	P := c.P
+	n := 0
+	for _, fn := range P.ModuleFuncs() {
+		for _, cs := range callsIn(fn) {
+			if cs.Static == nil || cs.Static.Pkg == nil {
+				continue
+			}
+			pp := cs.Static.Pkg.Pkg.Path()
+			if !(strings.HasSuffix(pp, "go-json-experiment/json") || pp == "encoding/json/v2" || strings.HasSuffix(pp, "/jsontext") || pp == "encoding/json/jsontext") {
+				continue
+			}
+			sig := cs.Static.Signature
+			if !sig.Variadic() || sig.Recv() != nil {
+				continue
+			}
+			n++
+			key := fmt.Sprintf("%s/json-call#%d[%s]", fnKey(fn), n, cs.Static.Name())
+			last := cs.Common.Args[len(cs.Common.Args)-1]
+			if isNilConst(last) {
+				c.OK(key, P.pos(cs.Instr.Pos()), cs.Static.Name()+" is called with no options")
+			} else {
+				c.Bad(key, P.pos(cs.Instr.Pos()), cs.Static.Name()+" is called with options: the library's defaults (repeated member names and invalid UTF-8 refused, at every depth) are what keeps a malformed schema document from being accepted; an option set here travels into every nested value")
+			}
+		}
+	}
+}
+
+// ---------- ARR-ITEM
+
+// ruleArrItem: the items of an array and the values of a map are decoded by their own codec and by nothing
+// else. In the Read method of the array and map codecs (and the helpers of those types it hands the buffer to)
+// the read buffer is used for three things only: Varint (counts and block sizes), allocation, and as the
+// argument of a sub-codec's Read, Skip or New. A bulk path that takes the items' bytes from the buffer itself
+// bypasses whatever codec was built — or registered — for the item type.
+func ruleArrItem(c *Ctx) {
+	c.Rule("ARR-ITEM", "the array and map codecs consume item and value bytes only through the item codec's own Read: the buffer itself is asked for counts, block sizes and allocations only", 2)
+	P := c.P
+	bt := getBT(P)
+	for _, name := range []string{"avro.arrayCodec", "avro.MapCodec"} {
+		ct := bt.byType[name]
+		if ct == nil || ct.M["Read"] == nil {
+			c.Anchor(false, name+".Read")
+			continue
+		}
+		root := ct.M["Read"]
+		var fns []*ssa.Function
+		seen := map[*ssa.Function]bool{}
+		var gather func(f *ssa.Function, d int)
+		gather = func(f *ssa.Function, d int) {
+			if seen[f] || d > 2 {
+				return
+			}
+			seen[f] = true
+			fns = append(fns, f)
+			for _, cs := range callsIn(f) {
+				g := cs.Static
+				if g == nil || !P.isModuleFunc(g) || g.Blocks == nil || g.Signature.Recv() == nil {
+					continue
+				}
+				// helpers of the codec type itself that are handed the buffer
+				if !types.Identical(types.Unalias(derefType(g.Signature.Recv().Type())), types.Unalias(derefType(root.Signature.Recv().Type()))) {
+					continue
+				}
+				for _, a := range cs.Common.Args {
+					if isReadBufPtr(a.Type()) {
+						gather(g, d+1)
+					}
+				}
+			}
+		}
+		gather(root, 0)
+		bad := ""
+		n := 0
+		for _, f := range fns {
+			for _, b := range f.Blocks {
+				for _, in := range b.Instrs {
+					// direct access to the buffer's fields
+					if fa, ok := in.(*ssa.FieldAddr); ok && isReadBufPtr(fa.X.Type()) {
+						bad = "reads the buffer's own fields at " + P.pos(fa.Pos())
+					}
+				}
+			}
+			for _, cs := range callsIn(f) {
+				g := cs.Static
+				if g == nil || g.Signature.Recv() == nil || len(cs.Common.Args) == 0 || !isReadBufPtr(cs.Common.Args[0].Type()) {
+					continue
+				}
+				n++
+				switch {
+				case g.Name() == "Varint":
+				case strings.HasPrefix(g.Name(), "Alloc"), g.Name() == "ExtractResourceBank":
+				case g.Name() == "Len":
+				default:
+					bad = fmt.Sprintf("calls %s at %s", qualNameShort(g), P.pos(cs.Instr.Pos()))
+				}
+			}
+		}
+		key := ct.Name + ".Read/items-through-their-codec"
+		if bad != "" {
+			c.Bad(key, P.pos(root.Pos()), "the codec "+bad+": item bytes are taken from the buffer directly, past the codec built (or registered) for the item type")
+		} else {
+			c.OK(key, P.pos(root.Pos()), fmt.Sprintf("%d uses of the buffer's own methods, all Varint or allocation; everything else goes through sub-codec calls", n))
 		}
 	}
 }
